@@ -275,7 +275,10 @@ func (c *Ctx) ruleLazyAtomic(rule string) {
 		}
 	}
 	// (5) helpers
-	for _, e := range []struct{ key string; ops []string }{
+	for _, e := range []struct {
+		key string
+		ops []string
+	}{
 		{"internal/impl.pointer.AtomicGetPointer", []string{"sync/atomic.LoadPointer"}},
 		{"internal/impl.pointer.AtomicSetPointerIfNil", []string{"sync/atomic.CompareAndSwapPointer"}},
 		{"internal/impl.Export.AtomicCheckPointerIsNil", []string{"sync/atomic.LoadPointer"}},
